@@ -123,7 +123,9 @@ CLAIMED = {
             "of the opening invocation) and validated by TLC on the property's window",
             "Exhaustive within bounds on the model; live runs cover recursion, nesting, generators, exception unwinding "
             "and threads reusing idents. Trace validation judges the window the property states (not one matching "
-            "algorithm). Known finding: captures in nested same-name invocations carry the inner result (listed).",
+            "algorithm). Known findings (listed): a capture on a function that is entered again WITHOUT the inner invocation "
+            "opening an entry of its own carries the inner result; a method capture completed by an exception the "
+            "invocation caught itself.",
             TRUSTED),
     'C12': (['ConfigSync'],
             "TLA+ spec ConfigSync.tla (poll request/answer, update tasks on a 2-worker pool, registrations; invariants "
